@@ -49,6 +49,8 @@ def run(chk: Check, ctx: Any) -> None:
         "imported macros are not overwritten, relayed entries/marks with file None get the relaying macro's file); each macro has its own "
         "source map builder; (R5) position marks are built from the argument they describe. Not decided: which anchor token is right for "
         "synthetic ops beyond 'the handler's own context'."
+        " (R6/R7, interpreter-based) compile() is evaluated on laid-out sample programs and on a three-level multi-file macro project; entries are compared wit"
+        "h positions taken from the grammar's own parse trees."
     )
     chk.rule("C08-R7", "compile() interpreted on a multi-file macro project: every op of an expansion has a macro entry naming the defining file (relative to the compiled file, null = same), the macro and the position of its statement there; exactly the first op of an expansion carries the call position; the return address lies after the expansion and not after the next op; files named = files that contributed ops; recorded marks = emitted marks")
     chk.rule("C08-R1", "each SsbOperation construction is registered under its number (add_opcode / add_macro_opcode / _register_operation), or reuses a registered offset")
